@@ -604,6 +604,18 @@ SMARTS = [
 ]
 
 
+# patterns that embed into the target only non-induced (a bond between matched atoms is absent from the pattern), fused / caged
+# targets, symmetric patterns with many automorphisms, hexacoordinated centres (stack depth)
+TRICKY_PAIRS = [
+    ('C1CCCC1', 'C1CC2CC12'), ('C1CCCCC1', 'C12C3C4C1C5C2C3C45'), ('C1CCC1', 'C12CC1C2'), ('C1CCCC1', 'C12CC1CC2'), ('CCCC', 'C1CCC1'),
+    ('CCC', 'C1CC1'), ('C1CCCCC1', 'C1CC2CCC1C2'), ('C1CCCCCC1', 'C1CC2CCC1CC2'), ('C1CCCCC1', 'C1CC2CC1CC2'), ('CC(C)C', 'C1CC1C'),
+    ('[A]1[A][A][A][A]1', 'C1CC2CC12'), ('[A]1[A][A][A][A][A]1', 'c1ccc2ccccc2c1'), ('C1CCCCCCCCC1', 'C1CCC2CCCCC2C1'),
+    ('c1ccccc1', 'c1ccc2ccccc2c1'), ('C1CC1', 'C12C3C1C23'), ('C1CCC1', 'C12C3C4C1C5C2C3C45'), ('FS(F)(F)(F)F', 'FS(F)(F)(F)(F)F'),
+    ('F[P-](F)(F)(F)F', 'F[P-](F)(F)(F)(F)F'), ('C1CC1.C1CC1', 'C1CC1C1CC1'), ('C1CCCC1', 'C1CC2CCC1C2'), ('N1CCCC1', 'C1CN2CC12'),
+    ('C1CCCC1', 'C1C2CC1C2'), ('C1CCC1', 'C1C2CC1C2'), ('C1CC1', 'C1C2CC12'),
+]
+
+
 def parse_smarts(text):
     from chython import smarts
     try:
@@ -612,7 +624,7 @@ def parse_smarts(text):
         return None
 
 
-def cut_pattern(rng, mol, size, flags=None):
+def cut_pattern(rng, mol, size, flags=None, drop_cycle_bond=False):
     """connected sub-pattern of `mol` as a QueryContainer (random label flags, ring marks on bonds at random)"""
     from chython.containers import QueryContainer
     from chython.containers.bonds import QueryBond
@@ -662,6 +674,25 @@ def cut_pattern(rng, mol, size, flags=None):
                 else:
                     qb = QueryBond.from_bond(b, in_ring=rng.random() < 0.4)
                 q._bonds[n][k] = q._bonds[k][n] = qb
+    # non-induced patterns: drop a bond that lies on a cycle of the pattern (the pattern stays connected); the target then has a
+    # bond between matched atoms that the pattern does not have, which both matchers must refuse (closure set / closure counter)
+    if drop_cycle_bond:
+        edges = sorted({tuple(sorted((n, k))) for n in q._bonds for k in q._bonds[n]})
+        rng.shuffle(edges)
+        for n, k in edges:
+            # still connected without (n, k)?
+            seen, todo = {n}, [n]
+            while todo:
+                x = todo.pop()
+                for y in q._bonds[x]:
+                    if (x, y) in ((n, k), (k, n)) or y in seen:
+                        continue
+                    seen.add(y)
+                    todo.append(y)
+            if k in seen:
+                del q._bonds[n][k]
+                del q._bonds[k][n]
+                break
     # random insertion order of the neighbour dicts
     for n in q._bonds:
         items = list(q._bonds[n].items())
@@ -701,11 +732,17 @@ def pair_stream(ctx, n_smarts_pairs, n_cut, n_multi):
             atoms = list(m._atoms)
             scope = sorted(rng.sample(atoms, rng.randint(0, len(atoms))))
         yield (f'{s} @ {name}', q, m, auto, scope)
-    for _ in range(n_cut):
-        name, m = rng.choice(small)
+    for qs_, ms_ in TRICKY_PAIRS:
+        q, m = parse_smarts(qs_), molgen.parse(ms_)
+        if q is not None and m is not None:
+            for auto in (True, False):
+                yield (f'{qs_} @ {ms_}', q, m, auto, None)
+    cyclic = [(n, m) for n, m in small if m.rings_count >= 2] or small
+    for i in range(n_cut):
+        name, m = rng.choice(cyclic if i % 3 == 0 else small)
         if len(m) < 2:
             continue
-        q = cut_pattern(rng, m, rng.randint(2, min(9, len(m))))
+        q = cut_pattern(rng, m, rng.randint(2, min(9, len(m))), drop_cycle_bond=(i % 3 == 0))
         # search in the source molecule or in another one
         tname, t = (name, m) if rng.random() < 0.7 else rng.choice(small)
         auto = rng.random() < 0.5
@@ -1101,6 +1138,15 @@ def correspond(ctx):
         pairs = pair_stream(ctx, 12000, 8000, 1500)
     stream_gm(ctx, pairs)
     ctx.exhaustive = False
+    shape = _state.get('layout', {}).get('shape_changed')
+    if shape:
+        # the translator could not re-extract the literals because the shape of the source changed; the model still carries
+        # the last extracted ones. If every stream above agreed, the model still mirrors the code (a harmless rewrite).
+        if any(b.kind == 'correspondence' for b in ctx.broken):
+            ctx.broke('translator', 'gen_bitlayout', shape)
+        else:
+            ctx.notes.append('gen_bitlayout: ' + shape + ' — literals not re-extracted; all correspondence streams agree with the '
+                             'model built on the previous literals')
 
 
 # ------------------------------------------------------------------------------------------------
